@@ -41,7 +41,10 @@ def replay (j : Json) : R Verdict := do
             ("C05", "an evaluation that exceeded its time limit was never replaced: its slot stayed occupied although budget was left (the run did not continue)") :: pf
   match exitCode with
   | some cde => if cde != 0 && cde != 1 && cde != 2 then pf := ("C15", s!"cambrian exited with status {cde} (crash)") :: pf
-  | none => if !hang then pf := ("C15", s!"cambrian was killed by signal {(fieldD obs "signal").compress}") :: pf
+  | none => if !hang then
+      pf := ("C15", s!"cambrian was killed by signal {(fieldD obs "signal").compress}") :: pf
+      if family == "sigint" then
+        pf := ("C04", s!"an interrupt killed the tool (signal {(fieldD obs "signal").compress}) instead of ending the run with its best result ({opts})") :: pf
   if panicked then pf := ("C15", s!"cambrian panicked: {((fieldD obs "stderrTail").getStr?.toOption.getD "").takeEnd 200}") :: pf
   -- C07: nothing survives the run
   if survivors > 0 then
@@ -286,6 +289,9 @@ def replay (j : Json) : R Verdict := do
     if ((fieldD to "survivors").getArr?.toOption.getD #[]).size > 0 then pf := ("C07", "survivors in twin run") :: pf
   | none => pure ()
   for n in ((fieldD obs "scriptNotes").getArr?.toOption.getD #[]) do
+    if ((n.getStr?.toOption.getD "").splitOn "timeout waiting for").length > 1 && family ∈ ["target-with-siblings", "sigint", "terminate-after", "failure"] then
+      let ncO := (optVal opts "--num-concurrent").bind (·.toNat?) |>.getD 1
+      pf := ("C05", s!"{starts.length} evaluation(s) were started and none finished, yet the harness waited 10 s in vain for num_concurrent = {ncO} of them to be in progress ({n.compress})") :: pf
     tags := ("note:" ++ n.compress) :: tags
   let kindV := if !pf.isEmpty then "PROPFAIL" else if dis.isSome then "DISAGREE" else "ok"
   let what := match pf.reverse, dis with | (_, w) :: _, _ => w | [], some d => d | [], none => ""
